@@ -152,7 +152,10 @@ PROPS = {
                             "at most one guard per thread; the observing main thread owns one ID, so capacity-1 worker threads",
                             "list nodes are recognised as 64-byte-aligned allocations (global operator new/delete replaced in the harness)"]},
     "C13": {"kinds": ["PREP-STACK", "PREP-PHANTOM", "PREP-LEAK", "PREP-X", "PREP-VER", "PREP-VERIFY", "CVERSION-RESULT", "CVERSION-REFRESH", "CVERSION-X", "CSNAPSHOT"],
-            "stages": lock_stages("C13", 8000, 60000), "assumptions": LOCK_ASSUME},
+            "differential_kinds": ["STUCK", "FINAL_BUSY", "EXCLUSION", "EXCLUSION-CONV", "TORN", "CRASH", "CRASH-UAF", "BOOL"], "neutralise": "composite",
+            "stages": lock_stages("C13", 8000, 60000),
+            "assumptions": LOCK_ASSUME + ["'released exactly once' for composite guards is decided metamorphically: a hang / busy lock / exclusion hit / crash in a C13 case counts "
+                                          "for C13 only if the same program and schedule with every PrepareRead / CompositeGuard operation turned into a no-op is clean"]},
 }
 
 
